@@ -2999,7 +2999,25 @@ fn rand_name(rng: &mut Rng, max: u64) -> Vec<u32> {
         let s: &&str = rng.pick(&pool[..]); return str_scalars(s);
     }
     let n = rng.below(max + 1);
-    (0..n).map(|_| rand_scalar(rng)).collect()
+    let mut v: Vec<u32> = (0..n).map(|_| rand_scalar(rng)).collect();
+    // names that START with what a byte-order-mark sniffing decoder would swallow or reinterpret:
+    // U+FEFF, U+FFFE, and the code units whose bytes spell the UTF-8 BOM in either byte order
+    if rng.chance(1, 10) {
+        let lead: &[u32] = match rng.below(5) {
+            0 => &[0xfeff],
+            1 => &[0xfffe],
+            2 => &[0xbbef, 0x41bf],
+            3 => &[0xefbb, 0xbf41],
+            _ => &[0xfeff, 0xfeff],
+        };
+        let mut w = lead.to_vec();
+        w.extend(v);
+        v = w;
+        if rng.chance(1, 3) {
+            v.truncate(lead.len());
+        }
+    }
+    v
 }
 
 fn rand_u64(rng: &mut Rng) -> u64 {
@@ -3067,7 +3085,20 @@ fn rand_cv(rng: &mut Rng) -> Option<Cv> {
             let len = *rng.pick(&[0usize, 1, 8, 15, 16, 17, 20, 32, 64, 3, 40]);
             let len = if rng.chance(1, 3) { rng.below(65) as usize } else { len };
             let zero = rng.chance(1, 8);
-            Some(Cv::Elf(Blob::raw((0..len).map(|_| if zero { 0 } else { rng.next() as u8 }).collect())))
+            // partially zero ids: only the first 16 bytes feed the debug id, only an ALL-zero id is "absent"
+            let shape = rng.below(8);
+            Some(Cv::Elf(Blob::raw(
+                (0..len)
+                    .map(|k| match shape {
+                        _ if zero => 0,
+                        0 => if k < 16 { 0 } else { 1 + rng.below(255) as u8 },      // zero GUID part, non-zero tail
+                        1 => if k < 16 { rng.next() as u8 } else { 0 },              // the reverse
+                        2 => if k + 1 == len { 1 } else { 0 },                        // one non-zero byte, the last
+                        3 => if k == 0 { 1 } else { 0 },                              // ... the first
+                        _ => rng.next() as u8,
+                    })
+                    .collect(),
+            )))
         }
         5 => {
             // a signature that is none of the three known ones in EITHER byte order
